@@ -3,7 +3,7 @@
    lowering is the program itself -- the same statements the visitor model emits for it (Lang/FixProofs.v).  So model
    and reference semantics agree, statement for statement, on all such programs, of any length and nesting. *)
 From Coq Require Import ZArith List Bool String Lia.
-From Verif Require Import Aexp BGate PyVal CastPrim Ast State Arr GatesGen GateLib Unroll Spec Depth DepthModel FixProofs.
+From Verif Require Import Aexp BGate PyVal CastPrim Ast State Arr GatesGen GateLib Unroll Spec Depth DepthModel DepthSpec FixProofs.
 Import ListNotations.
 Open Scope string_scope.
 Open Scope list_scope.
@@ -35,6 +35,12 @@ Proof.
   destruct (lower_top a) as [la|]; [|discriminate]. cbn [bind] in *. destruct (lower t1) as [lt|] eqn:Et; [|discriminate]. cbn [bind] in *.
   inversion L1; subst. rewrite (IH t2 lt l2 eq_refl L2). cbn [bind]. now rewrite app_assoc.
 Qed.
+
+Lemma events_of_app a b : events_of (a ++ b) = events_of a ++ events_of b.
+Proof. unfold events_of. apply flat_map_app. Qed.
+Lemma events_block_fix (l : list top) :
+  (fix go (l : list top) : list (list rsrc) := match l with [] => [] | x :: l' => events_of_top x ++ go l' end) l = events_of l.
+Proof. induction l as [|x l IH]; [reflexivity|]. unfold events_of in *. cbn [flat_map]. now rewrite IH. Qed.
 
 Section Ops.
 Variable strict : bool.
@@ -158,19 +164,19 @@ Proof. destruct s; reflexivity. Qed.
 
 (* a block of operations each of which leaves the state alone *)
 Lemma block_spec env l : forall s,
-  (forall stm s0, In stm l -> SRegs env s0 -> exists tr, exec_rec stm s0 = Ok (tr, s0) /\ lower tr = Ok [stm]) ->
-  SRegs env s -> exists tr, exec_block exec_rec FBlock [] l s = Ok (tr, s) /\ lower tr = Ok l.
+  (forall stm s0, In stm l -> SRegs env s0 -> exists tr, exec_rec stm s0 = Ok (tr, s0) /\ lower tr = Ok [stm] /\ events_of tr = ev_of stm) ->
+  SRegs env s -> exists tr, exec_block exec_rec FBlock [] l s = Ok (tr, s) /\ lower tr = Ok l /\ events_of tr = evs_of l.
 Proof.
   intros s H R. unfold exec_block, push_frame, pop_frame.
   rewrite (sbind_eq _ _ s tt (spushed s)) by reflexivity.
-  assert (Hc : exists tr, sconcatM exec_rec l (spushed s) = Ok (tr, spushed s) /\ lower tr = Ok l).
+  assert (Hc : exists tr, sconcatM exec_rec l (spushed s) = Ok (tr, spushed s) /\ lower tr = Ok l /\ events_of tr = evs_of l).
   { pose proof (SRegs_pushed env s R) as Rp. revert H. generalize (spushed s) Rp. clear. intros s R H.
-    induction l as [|x l IH]; [exists []; split; reflexivity|].
-    destruct (H x s (or_introl eq_refl) R) as (t1 & E1 & L1). destruct IH as (t2 & E2 & L2); [intros; apply H; [now right|assumption]|].
+    induction l as [|x l IH]; [exists []; repeat split; reflexivity|].
+    destruct (H x s (or_introl eq_refl) R) as (t1 & E1 & L1 & V1). destruct IH as (t2 & E2 & L2 & V2); [intros; apply H; [now right|assumption]|].
     exists (t1 ++ t2). cbn [sconcatM]. rewrite (sbind_eq _ _ s t1 s E1), (sbind_eq _ _ s t2 s E2). split; [reflexivity|].
-    change (x :: l) with ([x] ++ l). now apply lower_app. }
-  destruct Hc as (tr & Ec & Lc). exists tr. rewrite (sbind_eq _ _ _ tr (spushed s) Ec).
-  rewrite (sbind_eq _ _ (spushed s) tt s) by (rewrite <- (spop_pushed s) at 2; reflexivity). split; [reflexivity|exact Lc].
+    split; [change (x :: l) with ([x] ++ l); now apply lower_app|]. rewrite events_of_app, V1, V2. reflexivity. }
+  destruct Hc as (tr & Ec & Lc & Vc). exists tr. rewrite (sbind_eq _ _ _ tr (spushed s) Ec).
+  rewrite (sbind_eq _ _ (spushed s) tt s) by (rewrite <- (spop_pushed s) at 2; reflexivity). split; [reflexivity|split; [exact Lc|exact Vc]].
 Qed.
 
 Lemma lower_block_fix (l : list top) :
@@ -180,14 +186,15 @@ Proof. induction l as [|x l IH]; [reflexivity|]. cbn [lower]. now rewrite IH. Qe
 Lemma branch_spec env s lhs rhs t e :
   SRegs env s -> cond_ok env lhs rhs = true -> t <> [] ->
   forallb stmt_is_quantum t = true -> forallb stmt_is_quantum e = true ->
-  (forall stm s0, In stm (t ++ e) -> SRegs env s0 -> exists tr, exec_rec stm s0 = Ok (tr, s0) /\ lower tr = Ok [stm]) ->
-  exists tr, esb (SIf (EBin "==" lhs (ELit rhs)) t e) s = Ok (tr, s) /\ lower tr = Ok [SIf (EBin "==" lhs (ELit rhs)) t e].
+  (forall stm s0, In stm (t ++ e) -> SRegs env s0 -> exists tr, exec_rec stm s0 = Ok (tr, s0) /\ lower tr = Ok [stm] /\ events_of tr = ev_of stm) ->
+  exists tr, esb (SIf (EBin "==" lhs (ELit rhs)) t e) s = Ok (tr, s) /\ lower tr = Ok [SIf (EBin "==" lhs (ELit rhs)) t e] /\
+             events_of tr = ev_of (SIf (EBin "==" lhs (ELit rhs)) t e).
 Proof.
   intros R Hc Ht Qt Qe H. cbn [exec_stmt_body]. unfold exec_if. rewrite (sbind_eq _ _ s s s eq_refl).
   assert (negb (match t with [] => true | _ :: _ => false end) = true) as -> by (destruct t; [congruence|reflexivity]).
   cbn [sguard]. rewrite (sbind_eq _ _ s tt s eq_refl).
-  destruct (block_spec env t s) as (tt_ & Et & Lt); [intros; apply H; [apply in_or_app; now left|assumption]|exact R|].
-  destruct (block_spec env e s) as (te & Ee & Le); [intros; apply H; [apply in_or_app; now right|assumption]|exact R|].
+  destruct (block_spec env t s) as (tt_ & Et & Lt & Vt); [intros; apply H; [apply in_or_app; now left|assumption]|exact R|].
+  destruct (block_spec env e s) as (te & Ee & Le & Ve); [intros; apply H; [apply in_or_app; now right|assumption]|exact R|].
   unfold cond_ok in Hc.
   destruct lhs as [| | |c|coll idx| | | | | |]; try discriminate Hc.
   - destruct rhs as [z| | |]; try discriminate Hc.
@@ -196,7 +203,8 @@ Proof.
     rewrite (sbind_eq _ _ s (c, None, VInt z) s eq_refl). rewrite Lc. cbn [sguard]. rewrite (sbind_eq _ _ s tt s eq_refl).
     rewrite Qt, Qe. cbn [andb sguard]. rewrite (sbind_eq _ _ s tt s eq_refl).
     rewrite (sbind_eq _ _ s tt_ s Et), (sbind_eq _ _ s te s Ee).
-    eexists. split; [reflexivity|]. cbn [lower lower_top]. rewrite (lower_block_fix tt_), (lower_block_fix te), Lt, Le. reflexivity.
+    eexists. split; [reflexivity|]. split; [cbn [lower lower_top]; rewrite (lower_block_fix tt_), (lower_block_fix te), Lt, Le; reflexivity|].
+    unfold events_of. cbn [flat_map events_of_top ev_of]. rewrite (events_block_fix tt_), (events_block_fix te), !ev_of_block, app_nil_r, Vt, Ve. reflexivity.
   - destruct coll as [| | |c| | | | | | |]; try discriminate Hc.
     destruct idx as [|items]; try discriminate Hc.
     destruct items as [|[ie|] items']; try discriminate Hc.
@@ -209,7 +217,8 @@ Proof.
     rewrite (sbind_eq _ _ s (c, Some i, VBool b) s) by (destruct b; reflexivity). rewrite Lc, Hc. cbn [sguard]. rewrite (sbind_eq _ _ s tt s eq_refl).
     rewrite Qt, Qe. cbn [andb sguard]. rewrite (sbind_eq _ _ s tt s eq_refl).
     rewrite (sbind_eq _ _ s tt_ s Et), (sbind_eq _ _ s te s Ee).
-    eexists. split; [reflexivity|]. cbn [lower lower_top]. rewrite (lower_block_fix tt_), (lower_block_fix te), Lt, Le. reflexivity.
+    eexists. split; [reflexivity|]. split; [cbn [lower lower_top]; rewrite (lower_block_fix tt_), (lower_block_fix te), Lt, Le; reflexivity|].
+    unfold events_of. cbn [flat_map events_of_top ev_of]. rewrite (events_block_fix tt_), (events_block_fix te), !ev_of_block, app_nil_r, Vt, Ve. reflexivity.
 Qed.
 
 End Ops.
@@ -219,7 +228,7 @@ Definition quantum_blocks (stm : stmt) : bool :=
   match stm with SIf _ t e => forallb stmt_is_quantum t && forallb stmt_is_quantum e | _ => true end.
 
 Lemma simple_op_spec strict f env s stm : SRegs env s -> op_ok env stm = true -> stmt_is_quantum stm = true ->
-  exists tr, exec strict [] (S f) stm s = Ok (tr, s) /\ lower tr = Ok [stm].
+  exists tr, exec strict [] (S f) stm s = Ok (tr, s) /\ lower tr = Ok [stm] /\ events_of tr = ev_of stm.
 Proof.
   intros R Hok Hq. cbn [exec]. destruct stm; try discriminate Hq; cbn [op_ok] in Hok.
   - destruct mods; [|discriminate Hok].
@@ -228,20 +237,21 @@ Proof.
     apply andb_true_iff in Hok as [Hok Hd]. apply andb_true_iff in Hok as [Hok Hin]. apply andb_true_iff in Hok as [Hv Hb].
     apply Nat.eqb_eq in Hv, Hb. apply mapM_lit_bit in Eb as ->. apply mapM_lit_num in Ev as [-> Hn].
     destruct (gate_spec strict (exec strict [] f) (scall strict [] f) env s name vs bs np k R En Hv Hb Hin Hd) as [E L].
-    exists [TGate name vs bs false]. split; [exact E|]. cbn [lower lower_top]. rewrite L. reflexivity.
+    exists [TGate name vs bs false]. split; [exact E|]. split; [cbn [lower lower_top]; rewrite L; reflexivity|].
+    cbn [ev_of]. now rewrite mapM_lit_bit_of.
   - destruct mods; [|discriminate Hok]. destruct arg; try discriminate Hok. destruct qubits; [|discriminate Hok].
-    exists [TPhase v]. split; [now apply phase_spec|reflexivity].
+    exists [TPhase v]. split; [now apply phase_spec|split; reflexivity].
   - destruct target as [t|]; [|discriminate Hok]. destruct (lit_bit q) as [a|] eqn:Ea; [|discriminate Hok]. destruct (lit_bit t) as [b|] eqn:Eb; [|discriminate Hok].
     apply andb_true_iff in Hok as [Ha Hb]. rewrite (lit_bit_qarg_of q a Ea), (lit_bit_qarg_of t b Eb).
-    exists [TMeasure a b]. split; [eapply measure_spec; eauto|reflexivity].
+    exists [TMeasure a b]. split; [eapply measure_spec; eauto|split; [reflexivity|]]. cbn [ev_of]. now rewrite !lit_bit_of.
   - destruct (lit_bit q) as [a|] eqn:Ea; [|discriminate Hok]. rewrite (lit_bit_qarg_of q a Ea).
-    exists [TReset a]. split; [eapply reset_spec; eauto|reflexivity].
+    exists [TReset a]. split; [eapply reset_spec; eauto|split; [reflexivity|]]. cbn [ev_of]. now rewrite lit_bit_of.
   - destruct qs as [|q [|]]; try discriminate Hok. destruct (lit_bit q) as [a|] eqn:Ea; [|discriminate Hok]. rewrite (lit_bit_qarg_of q a Ea).
-    exists [TBarrier [a]]. split; [eapply barrier_spec; eauto|reflexivity].
+    exists [TBarrier [a]]. split; [eapply barrier_spec; eauto|split; [reflexivity|]]. cbn [ev_of]. now rewrite lit_bit_of.
 Qed.
 
 Lemma op_spec strict f env s stm : SRegs env s -> op_ok env stm = true -> quantum_blocks stm = true ->
-  exists tr, exec strict [] (S (S f)) stm s = Ok (tr, s) /\ lower tr = Ok [stm].
+  exists tr, exec strict [] (S (S f)) stm s = Ok (tr, s) /\ lower tr = Ok [stm] /\ events_of tr = ev_of stm.
 Proof.
   intros R Hok Hq. destruct (stmt_is_quantum stm) eqn:Eq; [now apply (simple_op_spec strict (S f) env s stm)|].
   destruct stm; try discriminate Hok; try discriminate Eq.
@@ -277,19 +287,19 @@ Definition no_bit_init (stm : stmt) : bool := match stm with SClassicalDecl _ _ 
 
 Lemma top_spec strict f env env' s stm :
   STop env s -> top_step env stm = Some env' -> quantum_blocks stm = true -> no_bit_init stm = true ->
-  exists tr s', exec strict [] (S (S f)) stm s = Ok (tr, s') /\ lower tr = Ok [stm] /\ STop env' s'.
+  exists tr s', exec strict [] (S (S f)) stm s = Ok (tr, s') /\ lower tr = Ok [stm] /\ STop env' s' /\ events_of tr = ev_of stm.
 Proof.
   intros T Hs Hq Hi.
   assert (Hop : top_step env stm = (if op_ok env stm then Some env else None) ->
-                exists tr s', exec strict [] (S (S f)) stm s = Ok (tr, s') /\ lower tr = Ok [stm] /\ STop env' s').
+                exists tr s', exec strict [] (S (S f)) stm s = Ok (tr, s') /\ lower tr = Ok [stm] /\ STop env' s' /\ events_of tr = ev_of stm).
   { intros Ht. rewrite Ht in Hs. destruct (op_ok env stm) eqn:Ho; [|discriminate]. inversion Hs; subst env'.
-    destruct (op_spec strict f env s stm (STop_SRegs _ _ T) Ho Hq) as (tr & E & L). exists tr, s. auto. }
+    destruct (op_spec strict f env s stm (STop_SRegs _ _ T) Ho Hq) as (tr & E & L & V). exists tr, s. auto. }
   destruct T as [(bds & Ee & Q & C & N) G I].
   destruct stm; try (apply (Hop eq_refl)).
   - (* include *)
     cbn [top_step] in Hs. destruct (smem file (e_inc env)) eqn:Ef; [discriminate|]. inversion Hs; subst env'.
     cbn [exec exec_stmt_body]. rewrite (sbind_eq _ _ s s s eq_refl), I, Ef. cbn [negb sguard]. rewrite (sbind_eq _ _ s tt s eq_refl).
-    eexists _, _. split; [reflexivity|]. split; [reflexivity|]. split; cbn; [exists bds; auto|exact G|congruence].
+    eexists _, _. split; [reflexivity|]. split; [reflexivity|]. split; [|reflexivity]. split; cbn; [exists bds; auto|exact G|congruence].
   - (* qubit register *)
     cbn [top_step] in Hs. destruct size as [e|]; [|apply (Hop eq_refl)].
     destruct e; try (apply (Hop eq_refl)). destruct v; try (apply (Hop eq_refl)).
@@ -302,7 +312,7 @@ Proof.
     assert (Hd : declare name (BQreg z) [mkFrame FGlobal bds] = Ok [mkFrame FGlobal (bds ++ [(name, BQreg z)])]).
     { pose proof (N name Fq Fc) as Hn. unfold declare. cbn [binds fk lookup]. unfold smemk, amem. unfold sget in *. rewrite !Hn. reflexivity. }
     rewrite Hd. cbn [slift]. rewrite (sbind_eq _ _ s _ s eq_refl).
-    eexists _, _. split; [reflexivity|]. split; [reflexivity|]. split; cbn [s_env s_gates s_incl e_q e_c e_inc]; [|exact G|exact I].
+    eexists _, _. split; [reflexivity|]. split; [reflexivity|]. split; [|reflexivity]. split; cbn [s_env s_gates s_incl e_q e_c e_inc]; [|exact G|exact I].
     exists (bds ++ [(name, BQreg z)]). split; [reflexivity|]. split; [|split].
     + intros r n Hr. rewrite sget_app_end. destruct (String.eqb_spec r name) as [->|Nr].
       * rewrite sget_sset_eq in Hr. inversion Hr; subst. now rewrite (N name Fq Fc).
@@ -323,7 +333,7 @@ Proof.
     assert (Hd : declare name (BCreg z) [mkFrame FGlobal bds] = Ok [mkFrame FGlobal (bds ++ [(name, BCreg z)])]).
     { pose proof (N name Fq Fc) as Hn. unfold declare. cbn [binds fk lookup]. unfold smemk, amem. unfold sget in *. rewrite !Hn. reflexivity. }
     rewrite Hd. cbn [slift]. rewrite (sbind_eq _ _ s _ s eq_refl).
-    eexists _, _. split; [reflexivity|]. split; [reflexivity|]. split; cbn [s_env s_gates s_incl e_q e_c e_inc]; [|exact G|exact I].
+    eexists _, _. split; [reflexivity|]. split; [reflexivity|]. split; [|reflexivity]. split; cbn [s_env s_gates s_incl e_q e_c e_inc]; [|exact G|exact I].
     exists (bds ++ [(name, BCreg z)]). split; [reflexivity|]. split; [|split].
     + intros r n Hr. rewrite sget_app_end. now rewrite (Q r n Hr).
     + intros r n Hr. rewrite sget_app_end. destruct (String.eqb_spec r name) as [->|Nr].
@@ -336,22 +346,22 @@ Qed.
 (* ---------- whole programs ---------- *)
 Theorem reference_semantics_on_flat_programs strict p :
   wf_flat env0 p = true -> forallb quantum_blocks p = true -> forallb no_bit_init p = true ->
-  exists tr, spec_run strict false [] p = Ok tr /\ lower tr = Ok p.
+  exists tr, spec_run strict false [] p = Ok tr /\ lower tr = Ok p /\ events_of tr = evs_of p.
 Proof.
   intros Hw Hq Hi. unfold spec_run. cbn [andb].
   assert (G : forall l env s, STop env s -> wf_flat env l = true -> forallb quantum_blocks l = true -> forallb no_bit_init l = true ->
-              exists tr s', sconcatM (exec strict [] default_fuel) l s = Ok (tr, s') /\ lower tr = Ok l).
-  { induction l as [|stm l IH]; intros env s T W Q I; [exists [], s; split; reflexivity|].
+              exists tr s', sconcatM (exec strict [] default_fuel) l s = Ok (tr, s') /\ lower tr = Ok l /\ events_of tr = evs_of l).
+  { induction l as [|stm l IH]; intros env s T W Q I; [exists [], s; repeat split; reflexivity|].
     cbn [wf_flat forallb] in *. destruct (top_step env stm) as [env'|] eqn:Es; [|discriminate].
     apply andb_true_iff in Q as [Q1 Q]. apply andb_true_iff in I as [I1 I].
-    destruct (top_spec strict 198 env env' s stm T Es Q1 I1) as (t1 & s1 & E1 & L1 & T1).
-    destruct (IH env' s1 T1 W Q I) as (t2 & s2 & E2 & L2).
+    destruct (top_spec strict 198 env env' s stm T Es Q1 I1) as (t1 & s1 & E1 & L1 & T1 & V1).
+    destruct (IH env' s1 T1 W Q I) as (t2 & s2 & E2 & L2 & V2).
     exists (t1 ++ t2), s2. cbn [sconcatM]. change default_fuel with (S (S 198)).
     rewrite (sbind_eq _ _ s t1 s1 E1), (sbind_eq _ _ s1 t2 s2 E2). split; [reflexivity|].
-    change (stm :: l) with ([stm] ++ l). now apply lower_app. }
-  destruct (G p env0 (mkS [mkFrame FGlobal []] [] [] [] 0 [])) as (tr & s' & E & L); auto.
+    split; [change (stm :: l) with ([stm] ++ l); now apply lower_app|]. rewrite events_of_app, V1, V2. reflexivity. }
+  destruct (G p env0 (mkS [mkFrame FGlobal []] [] [] [] 0 [])) as (tr & s' & E & L & V); auto.
   - split; cbn; [exists []; repeat split; intros; discriminate|reflexivity|reflexivity].
-  - rewrite E. exists tr. split; [reflexivity|exact L].
+  - rewrite E. exists tr. split; [reflexivity|split; [exact L|exact V]].
 Qed.
 
 (* ... so on these programs the visitor model emits exactly the lowering of the reference trace *)
@@ -360,7 +370,20 @@ Corollary model_agrees_with_reference_semantics_on_flat_programs strict p o :
   unroll_v false [] p = Ok o ->
   exists tr, spec_run strict false [] p = Ok tr /\ lower tr = Ok (o_stmts o).
 Proof.
-  intros Hw Hq Hi Hd Hu. destruct (reference_semantics_on_flat_programs strict p Hw Hq Hi) as (tr & E & L).
+  intros Hw Hq Hi Hd Hu. destruct (reference_semantics_on_flat_programs strict p Hw Hq Hi) as (tr & E & L & _).
   destruct (wf_flat_is_accepted_and_a_fixpoint default_fuel p Hw Hd) as [_ (o' & E' & Ho & _)].
   unfold unroll_v in Hu. rewrite E' in Hu. injection Hu as <-. exists tr. rewrite Ho. auto.
+Qed.
+
+(* ... and the depth oracle of C09 (the critical path of the reference trace) is computed over exactly the events whose
+   recurrence gives the model's depth counters (Props/C09.v): the two notions of depth coincide on these programs *)
+Corollary reference_depth_is_model_depth strict p :
+  wf_flat env0 p = true -> forallb quantum_blocks p = true -> forallb no_bit_init p = true -> (ldepth p < default_fuel)%nat ->
+  exists tr o, spec_run strict false [] p = Ok tr /\ run_visit false true [] default_fuel p = Ok o /\
+    spec_depth tr = total_depth rsrc_eqb (List.concat (evs_of p)) (evs_of p) /\
+    forall r, dof (o_state o) r = depth_after rsrc_eqb (evs_of p) r.
+Proof.
+  intros Hw Hq Hi Hd. destruct (reference_semantics_on_flat_programs strict p Hw Hq Hi) as (tr & E & _ & V).
+  destruct (wf_flat_is_accepted_and_a_fixpoint default_fuel p Hw Hd) as [(o & Eo & _ & _ & D) _].
+  exists tr, o. split; [exact E|split; [exact Eo|split; [|exact D]]]. unfold spec_depth. now rewrite V.
 Qed.
